@@ -282,3 +282,71 @@ def binding_selftest(ctx, traces, handles=(1, 2, 3), base=(1, 2)):
             raise Machinery("binding demonstration failed: corrupted trace (%s) was not rejected by clause %s (got %s)" % (tag, clause, sorted(got)))
     ctx.note("binding_demonstration", {"corruptions_rejected": len(muts), "clauses": sorted({m[2] for m in muts})})
     return len(muts)
+
+
+# ----------------------------------------------------------------------------- JIT off
+def _json_close(a, b, path=""):
+    """Tolerant comparison of two jsonable fingerprints (gridjitoff.jsonable)."""
+    if isinstance(a, dict) and isinstance(b, dict):
+        if set(a) != set(b):
+            return False, path + ":keys"
+        if "f" in a:
+            if a["s"] != b["s"]:
+                return False, path + ":shape"
+            for x, y in zip(a["f"], b["f"]):
+                if (x is None) != (y is None):
+                    return False, path + ":nan pattern"
+                if x is not None and abs(x - y) > 1e-12 + 1e-12 * abs(y):
+                    return False, path + ":values differ by %.3g" % abs(x - y)
+            return True, ""
+        for k in a:
+            ok, w = _json_close(a[k], b[k], path + "/" + str(k))
+            if not ok:
+                return ok, w
+        return True, ""
+    if isinstance(a, list) and isinstance(b, list):
+        if len(a) != len(b):
+            return False, path + ":length"
+        for i, (x, y) in enumerate(zip(a, b)):
+            ok, w = _json_close(x, y, path + "[%d]" % i)
+            if not ok:
+                return ok, w
+        return True, ""
+    return (a == b), ("" if a == b else path + ":%r != %r" % (a, b))
+
+
+def jit_off_run(ctx, jobs, panel_sources, panel_ops):
+    """Replays `jobs` in a child process with numba's JIT off; returns its traces.  The panel of
+    fresh values computed there is compared with the JIT-on values of this process."""
+    import subprocess
+    import sys
+
+    from . import gridjitoff as J
+    from . import gridops as G
+    from . import ux as hux
+
+    src = os.path.join(ctx.work, "jitoff_jobs.json")
+    dst = os.path.join(ctx.work, "jitoff_out.json")
+    json.dump({"jobs": [list(j) for j in jobs], "panel_sources": panel_sources, "panel_ops": panel_ops}, open(src, "w"))
+    env = dict(os.environ, NUMBA_DISABLE_JIT="1", PYTHONPATH=hux.VERIF)
+    p = subprocess.run([sys.executable, "-W", "ignore", "-m", "harness.gridjitoff", src, dst], cwd=hux.VERIF, env=env, capture_output=True, text=True, timeout=3000)
+    if p.returncode or not os.path.exists(dst):
+        raise Machinery("JIT-off child failed (rc=%s):\n%s" % (p.returncode, (p.stdout + p.stderr)[-2000:]))
+    out = json.load(open(dst))
+    G.templates_init()
+    n = 0
+    for s in panel_sources:
+        for op in panel_ops:
+            G.templates_restore()
+            o = G.run_op(G.open_source(s), op)
+            mine = {"raised": o.raised, "fp": None if o.raised else J.jsonable(o.fp)}
+            theirs = out["panel"][s][op]
+            n += 1
+            if mine["raised"] != theirs["raised"]:
+                ctx.violation("jit|%s|%s" % (s, op), "JitIndependent", detail="outcome class differs: JIT on raised=%s, JIT off raised=%s" % (mine["raised"], theirs["raised"]), sig={"clause": "JitIndependent", "act": op.split(":")[0]}, replay={"source": s, "op": op})
+            elif not mine["raised"]:
+                ok, where = _json_close(mine["fp"], theirs["fp"])
+                if not ok:
+                    ctx.violation("jit|%s|%s" % (s, op), "JitIndependent", detail=where, sig={"clause": "JitIndependent", "act": op.split(":")[0]}, replay={"source": s, "op": op})
+    ctx.note("jit_off", {"histories": len(out["traces"]), "panel_observations": n})
+    return out["traces"]
